@@ -603,7 +603,7 @@ _sodium_malloc(const size_t size)
     size_t         total_size;
     size_t         unprotected_size;
 
-    if (size >= (size_t) SIZE_MAX - page_size * 4U) {
+    if (size >= (size_t) SIZE_MAX - page_size * 5U) {
         errno = ENOMEM;
         return NULL;
     }
